@@ -76,6 +76,34 @@ def _engine_job(eng, net, opts, jobs, recs):
     return recs
 
 
+def bait_filter(fens):
+    """roots having a checking move after which every legal reply captures the checker with a more valuable piece (shape test by the Lean model)"""
+    drv = vlib.driver_bin()
+    val = {"p": 1, "n": 3, "b": 3, "r": 5, "q": 9, "k": 100}
+    rc, lg, _ = vlib.run_lines(drv, [f"chess legal {f}" for f in fens])
+    q, owner = [], []
+    for f, l in zip(fens, lg):
+        t = l.split()
+        if not t or t[0] != "0": continue
+        for m in t[1:]:
+            q.append(f"chess line {f} {m}"); owner.append((f, m))
+    rc, ch, _ = vlib.run_lines(drv, q)
+    q2, own2 = [], []
+    for (f, m), c in zip(owner, ch):
+        if c.startswith("ok") and "chk=1" in c and (" legal=1 " in c + " " or " legal=2 " in c + " "):
+            q2.append("chess legal " + " ".join(c.split()[2:8])); own2.append((f, m, " ".join(c.split()[2:8])))
+    rc, ev, _ = vlib.run_lines(drv, q2) if q2 else (0, [], "")
+    good = {}
+    for (f, m, child), e in zip(own2, ev):
+        b = chessgen.fen_board(child)
+        sq = lambda s: "abcdefgh".index(s[0]) + 8 * (int(s[1]) - 1)
+        checker = b[sq(m[2:4])]
+        evs = e.split()[1:]
+        if checker and evs and all(x[2:4] == m[2:4] and val[b[sq(x[0:2])].lower()] > val[checker.lower()] and b[sq(x[0:2])].lower() != "k" for x in evs):
+            good.setdefault(f, m)
+    return list(good.items())
+
+
 def run(ctx):
     quick = ctx.tier == "quick"
     r = ctx.rng
@@ -165,6 +193,16 @@ def run(ctx):
     for f in longm:
         i = r.randrange(len(optsets))
         for d in r.sample([7, 8, 9, 10, 11, 12] if quick else [8, 10, 12, 14, 16], 2 if quick else 4):
+            jobs_by_set[i].append((f, f"go depth {d}" + ("!" if r.random() < 0.5 else "")))
+    # baits: a check answered only by capturing the checker with a more valuable piece — no mate, whatever a pruned quiescence thinks
+    bc = chessgen.recapture_baits(r, 400 if quick else 12000)
+    rc, fo3, _ = vlib.run_lines(vh, [f"chess fen {f}" for f in bc])
+    baits = bait_filter(list(dict.fromkeys(o[3:] for o in fo3 if o.startswith("ok "))))
+    r.shuffle(baits); baits = baits[:40 if quick else 1500]
+    ctx.cov["recapture_baits"] = len(baits)
+    for f, m in baits:
+        i = r.randrange(len(optsets))
+        for d in r.sample([1, 2, 3, 4, 5, 6], 3):
             jobs_by_set[i].append((f, f"go depth {d}" + ("!" if r.random() < 0.5 else "")))
     for f in mates23 + nomate:
         i = r.randrange(len(optsets))
